@@ -59,6 +59,8 @@ def native_replay(shard, args, timeout=120):
 def write_replay(prop, shard, args, replay):
     digest = hashlib.sha1(json.dumps([shard.label, encode_args(args)], sort_keys=True).encode()).hexdigest()[:10]
     directory = os.path.join(VERIF, 'replays', prop)
+    if os.environ.get('SYMCHECK_TAG'):
+        directory = os.path.join(VERIF, 'build', os.environ['SYMCHECK_TAG'], 'replays', prop)
     os.makedirs(directory, exist_ok=True)
     path = os.path.join(directory, '%s-%s.json' % (shard.label.replace('/', '_'), digest))
     with open(path, 'w') as handle:
